@@ -122,6 +122,7 @@ func genCfg(withSync bool) sim.GenConfig {
 		Codecs:      crdtCodecs,
 		WithSync:    withSync,
 		LargeOneIn:  ev.Scale(128, 96),
+		WideOneIn:   ev.Scale(64, 48),
 	}
 }
 
